@@ -20,11 +20,18 @@ Variable eqb : C -> C -> bool.            (* exact equality of carrier values *)
 Variable wclose : C -> C -> bool.         (* model weight vs observed weight (stored as float32 by the code) *)
 
 (* after one op: len(buffer), tree_ptr, max_priority, optionally both tree arrays,
-   "an AssertionError was raised", result of sample (indices, weights) *)
-Definition obs1 := (nat * nat * C * option (list C * list (option C)) * bool * option (list nat * list C))%type.
+   "an AssertionError was raised", result of sample (indices, weights),
+   then range queries made after the op: (start, end, sum_tree.sum(start, end), min_tree.min(start, end)) *)
+Definition rng1 := (nat * nat * C * option C)%type.
+Definition obs1 := (nat * nat * C * option (list C * list (option C)) * bool * option (list nat * list C) * list rng1)%type.
+
+Definition check_range (s : per C) (r : rng1) : bool :=
+  let '(a, b, sv, mv) := r in
+  eqb sv (operate (c_add C) (c_zero C) (tcap C s) (sumt C s) a b) &&
+  opt_eqb eqb mv (operate (omin C) None (tcap C s) (mint C s) a b).
 
 Definition check_one (s : per C) (o : pop C) (ob : obs1) : per C * bool :=
-  let '(len, ptr, maxp, trees, raised, smp) := ob in
+  let '(len, ptr, maxp, trees, raised, smp, rngs) := ob in
   let '(s', mraised) := per_step C powa s o in
   let base :=
     Nat.eqb len (size C s') && Nat.eqb ptr (tree_ptr C s') && eqb maxp (max_prio C s') &&
@@ -43,7 +50,7 @@ Definition check_one (s : per C) (o : pop C) (ob : obs1) : per C * bool :=
         end
     | _ => Bool.eqb raised mraised && match smp with None => true | Some _ => false end
     end in
-  (s', base && rest).
+  (s', base && rest && forallb (check_range s') rngs).
 
 Fixpoint check_trace (s : per C) (ops : list (pop C)) (obs : list obs1) : bool :=
   match ops, obs with
